@@ -206,11 +206,24 @@ def r16_6(repo: Repo) -> RuleResult:
     return rr
 
 
-RULES = [r16_1, r16_2, r16_3, r16_4, r16_5, r16_6]
+def r16_7(repo: Repo) -> RuleResult:
+    """The hash a fit uses must be built for *its* max_columns: make_hash and the functions around it keep no
+    process-wide table (C13's R13.6, restricted to the LZ code)."""
+    from .c13 import r13_6
+
+    rr = r13_6(repo)
+    rr.rule, rr.title, rr.floor = "R16.7", "the LZ hash factory and encoder keep no module-level table between fits", 3
+    rr.instances = [i for i in rr.instances if i.file == MG]
+    for i in rr.instances:
+        i.rule = "R16.7"
+    return rr
+
+
+RULES = [r16_1, r16_2, r16_3, r16_4, r16_5, r16_6, r16_7]
 CLAIM = (
     "R16.1 loop-carried dependence: the dictionary handed to the (mutating) parser is created inside each iteration of both "
     "per-string loops; R16.2 CSR pointer consistency of both assembly loops; R16.3 parser called with the same fitted hash and "
     "cap and the dictionary seeded identically in fit_transform and transform; R16.4 transform never mutates the column "
-    "dictionary; R16.5 hashing is modulo max_columns; R16.6 the parse dictionary grows only under the cap test and the size counter follows each insertion."
+    "dictionary; R16.5 hashing is modulo max_columns; R16.6 the parse dictionary grows only under the cap test and the size counter follows each insertion; R16.7 no function of the LZ / BPE module on a fit or transform path writes into a module-level container (a hash cached under part of its parameters would outlive the fit it was built for)."
 )
 NOT_DECIDED = "row totals, behaviour at the max_dict_size cap, and the no-collision relabelling statement (values)."
